@@ -120,6 +120,9 @@ func runC03(c *Ctx) {
 		"the caller passed — never to a field of the Parser or a package-level variable, which the next packet of the connection overwrites while this packet's handlers (dispatched on their own goroutines) still read it", 1)
 	headerOwnsItsStorage(c, "C03-D8")
 
+	c.Rule("C03-D11", "a queued emit keeps its timeout (F64, known finding): addToQueue receives the emit's timeout", 1)
+	retryQueueKeepsTimeout(c, "C03-D11")
+
 	c.Rule("C03-D5", "retry queue: the application's callback of a queued emit is invoked, and the packet leaves the queue, only on a final outcome — the reply, or the failure of the last allowed try (tryCount > Retries) — never on the failure of an intermediate try (the packet is re-sent then and will report again)", 2)
 	{
 		top := p.Fn("sio", "clientPacketQueue.addToQueue")
